@@ -94,7 +94,7 @@ func obsLinesForBin(sc binScenario, points []pointRec, snap map[string]string) [
 			}
 		}
 	}
-	lines = append(lines, core.JSON(map[string]interface{}{"a": "end", "dir": dirProjection2(snap, []string{"f1", "f2"}), "readonly": sc.ReadOnly, "unchanged": unchanged}))
+	lines = append(lines, core.JSON(map[string]interface{}{"a": "end", "dir": dirProjection2(snap, []string{"f1", "f2"}, nil), "readonly": sc.ReadOnly, "unchanged": unchanged}))
 	return lines
 }
 
@@ -213,7 +213,41 @@ func runC11(r *core.Run) {
 	if !res.OK || seen != len(jobs) {
 		core.Fail("FileProtocolObs did not consume all runs (%d of %d): %s %s", seen, len(jobs), res.Violated, res.ErrorText)
 	}
-	r.Coverage["traces_validated_against_impl"] = len(jobs)
+	// two-party terminations: a process ending (normally, by timeout or error) while another one is in the
+	// middle of its own acquisition or release. Executed through the gate scheduler on the real handler
+	// code; only the clean-exit clauses are judged here (the others belong to C09).
+	pairs := [][2]string{{"R", "UC"}, {"UC", "R"}, {"UC", "UC"}, {"RUC", "UC"}, {"UE", "R"}, {"UR", "R"}, {"CC", "CC"}, {"CR", "R2"}, {"U12C", "U21C"}}
+	batch := fpPreempt(r, pairs)
+	stride := 2
+	if r.Thorough {
+		stride = 1
+	}
+	batch = append(batch, fpPreempt2(r, [][2]string{{"UC", "R"}, {"R", "UC"}, {"UC", "UC"}, {"UE", "RUC"}}, stride)...)
+	fpPad(batch)
+	bad := validateObs(r, batch)
+	reported := map[string]bool{}
+	for i, t := range batch {
+		r.Distinct("sched:" + core.JSON(t.Init.Progs) + strings.Join(t.Schedule, ","))
+		cl := bad[i]
+		if !strings.HasPrefix(cl, "ObsCleanExit") {
+			continue
+		}
+		again := runSchedule(r, t.Init, t.Schedule, "reproduce")
+		fpPad([]*fpTrace{again})
+		b2 := validateObs(r, []*fpTrace{again})
+		if !strings.HasPrefix(b2[0], "ObsCleanExit") {
+			core.Fail("C11 two-party observation %s did not reproduce", cl)
+		}
+		sig := fpSignature(b2[0], again)
+		if reported[sig] {
+			continue
+		}
+		reported[sig] = true
+		r.Violation(sig, fmt.Sprintf("%s\nprograms=%s\nschedule=%v", b2[0], core.JSON(t.Init.Progs), t.Schedule),
+			map[string]interface{}{"init": t.Init, "schedule": t.Schedule, "clause": b2[0]})
+	}
+	r.Coverage["two_party_schedules"] = len(batch)
+	r.Coverage["traces_validated_against_impl"] = len(jobs) + len(batch)
 	r.Coverage["evaluations"] = len(jobs)
 	r.Coverage["distinct_nontrivial"] = r.DistinctCount()
 	r.Coverage["rule"] = "one execution of the real binary per (scenario, termination): no signal, or SIGINT/SIGTERM/SIGQUIT delivered at a hook point id recorded by a reference run (all points with SIGINT; TERM and QUIT on every point in the thorough tier, every 6th in quick); scenarios: read-only, update+commit, auto-commit of two tables, create+commit, create+rollback, error, EXIT, competing lock holder (read and update); non-trivial = distinct (scenario, point id, signal)"
